@@ -53,6 +53,81 @@ CLAIMS.update({
         design='4 (C14)', technique='Kani/CBMC bounded model checking of real code; compositional (per-predicate tables x decision list x class pairing)'),
 })
 
+T2 = 'Kani/CBMC bounded model checking of real code; '
+CLAIMS.update({
+    'C01': dict(
+        text='Every harness of /verif keeps Kani\'s panic, arithmetic-overflow, slice-index, str-boundary and unwrap checks on. This check runs '
+             'a dedicated harness (all nine context rules, fully symbolic 3-character label, ANY usize offset) plus a designated set of the other '
+             'properties\' bodies (classification for any predicate outcome and on real tables, allows(), space/width/case rules on fully symbolic '
+             'strings, stabilize, prepare/enforce/compare of all four profiles, bidi rule), counting only their safety checks.',
+        note='Bounds as listed per harness in evidence; allocation failure and stack exhaustion out of scope; pointer (memory-safety) checks of std '
+             'are off in the quick tier (/repo has no unsafe code).',
+        design='4 (C01)', technique=T2 + 'panic/overflow/index/str-boundary checks over symbolic strings, offsets and code points'),
+    'C02': dict(
+        text='allows() is executed on labels of up to 4 (thorough 6) fully symbolic characters for a user class whose derived property values, '
+             'rule registry and rule outcomes are ALL arbitrary functions chosen by the solver; the result must be exactly the first offender '
+             '(code point, character position, property) or the Missing/NotApplicable/Undefined error. Thorough adds both standard classes '
+             'end-to-end with the real registry and rules.',
+        note='The clause about the standard classes is the composition with c03_registry and the C03 rule prologues; S-RULE stub (see evidence).',
+        design='4 (C02)', technique=T2 + 'user-supplied class and rule registry as uninterpreted functions'),
+    'C03': dict(
+        text='Layer A: each table predicate is observed through its rule on a string with one symbolic neighbour (every scalar value) and real '
+             'generated 6.3.0 tables. Layer B: each of the nine rules on labels of up to 3 (ZWNJ 4; thorough 5/6) fully symbolic characters and ANY '
+             'usize offset against RFC 5892 Appendix A written over the character array. Registry: every u32.',
+        note='S-CTX in Layer B (discharged by Layer A); labels longer than the bound are outside the claim.',
+        design='4 (C03)', technique=T2 + 'two layers (real tables per neighbour, oracle predicates on symbolic labels and offsets)'),
+    'C04': dict(
+        text='prepare and enforce of both username profiles on strings over a 44-character alphabet closed under every pipeline operation '
+             '(fullwidth, combining marks, singleton, RTL, Arabic-Indic digit, emoji ...), against the RFC 8265 pipeline written over character '
+             'arrays; rule-binding harness pins NFC/width/case/directionality bindings. Quick: 1 character; thorough: 2.',
+        note='S-PIPE/S-STR stubs incl. a normalizer model that gen.py validates against the real unicode-normalization crate on 7.6 M '
+             'strings; directionality step = the crate\'s own bidi rule on the specification\'s string (its correctness is C09). In-crate hook.',
+        design='4 (pipelines)', technique=T2 + 'pipelines over a closed witness alphabet, array-level oracle'),
+    'C05': dict(
+        text='OpaqueString prepare/enforce on strings over the closed 44-character alphabet against the RFC 8265 4.2 pipeline over character arrays '
+             '(FreeformClass, non-ASCII space mapping, NFC, non-empty); binding harness: NFC not NFKC, no case/width/directionality rule.',
+        note='S-PIPE/S-STR; quick 1 character, thorough 2.', design='4 (pipelines)', technique=T2 + 'pipelines over a closed witness alphabet'),
+    'C06': dict(
+        text='Nickname prepare/enforce against the statement\'s loop (validate, space rule, NFKC, non-empty; first + three re-applications) over '
+             'character arrays; the alphabet contains characters whose NFKC form introduces spaces (U+00B4) or DISALLOWED code points (U+3131), so '
+             'second rounds and re-validation matter; every accepted result is checked to be a fixed point.',
+        note='S-PIPE/S-STR; quick 1 character plus a concrete two-round input, thorough 2.', design='4 (pipelines)',
+        technique=T2 + 'pipelines over a closed witness alphabet, fixed-point oracle'),
+    'C07': dict(
+        text='compare of all four profiles on all PAIRS of strings over the alphabet: equals equality of the specification\'s canonical forms, '
+             'first operand\'s error first (Nickname: rules + lowercase iterated to stability).',
+        note='S-PIPE/S-STR; quick: strings of at most 1 character, thorough 2. Reflexivity/symmetry/transitivity follow from equality of canonical forms.',
+        design='4 (pipelines)', technique=T2 + 'pairs of symbolic strings over a closed alphabet'),
+    'C08': dict(
+        text='(i) every scalar value through the real std to_lowercase: no DISALLOWED target for an IdentifierClass-valid source (UNASSIGNED '
+             'targets = known finding); (ii) enforce(enforce(s)) is the same string or an error and no output code point is DISALLOWED/UNASSIGNED, '
+             'all four profiles over the alphabet.',
+        note='Normalization introducing forbidden code points over all of Unicode is outside reach (only over the alphabet).',
+        design='4 (pipelines)', technique=T2 + 'per-character Layer A on real std tables + pipelines over a closed alphabet'),
+    'C09': dict(
+        text='Layer A: the private bidi_class_cp on the real 1570-entry table equals UnicodeData 16.0.0 on every assigned code point (8 chunks '
+             'partitioning u32). Layer B: directionality_rule on EVERY class sequence of length <= 4 (thorough 6) over the 23 Bidi classes against the '
+             'six RFC 5893 conditions; accepted strings unchanged, rejection is Invalid. One known finding (NSM followed by non-NSM).',
+        note='S-BIDI-W in Layer B (discharged by Layer A); in-crate hook; longer labels outside the claim (the implementation is a 4-flag automaton).',
+        design='4 (C09)', technique=T2 + 'two layers; rule as a regular language over class sequences'),
+    'C13': dict(
+        text='stabilize() with f ranging over ALL functions on 5 strings into (5 strings + typed failure), every start, unchanged results '
+             'borrowed or owned, shorter results owned or a borrowed prefix of the input; exact accept/reject/call-count contract.',
+        note='f is a table-driven closure; strings of 0..5 bytes.', design='4 (C13)',
+        technique=T2 + 'rule function as a symbolic transition table'),
+    'C15': dict(
+        text='In-crate: UnassignedTableGen::process_entry, BidiClassGen::compress_into_ranges and WidthMappingTableGen::process_entry on K symbolic '
+             'ascending disjoint UnicodeData entries (Single or Range) and a symbolic probe code point: the emitted entries denote exactly the input, '
+             'no code point is covered twice. Partial: parsing (First/Last folding), HashSet-based tables and text emission are not reachable.',
+        note='S-CP/S-VEC/S-FMT stubs; K = 3 quick, 4-5 thorough; what the emitted tables are for the pinned inputs is decided by the Layer A harnesses of C03/C09/C11/C12/C14.',
+        design='4 (C15), 6', technique=T2 + 'generator state machines over symbolic entry sequences'),
+    'C16': dict(
+        text='For every profile and string over the alphabet: static fast-invocation (lazy singleton), String input, Cow input and a long-lived '
+             'instance after another call all give the result of a fresh instance on &str. Sequential part only.',
+        note='Thread interleavings and racing first use are NOT claimed (Kani has no concurrency model; Once::call_once is stubbed).',
+        design='4 (pipelines), 6', technique=T2 + 'API-form equivalence over a closed alphabet (sequential)'),
+})
+
 NOT_YET = 'check not built yet in this session (see DESIGN.md section 4 for the planned harness)'
 NOT_APPLICABLE = {
     'C17': 'the registry CSV parser is regex + BufReader<File>: Kani ICEs while compiling the regex crate (rvalue.rs:1009) and '
@@ -109,7 +184,7 @@ def main():
         f.write('\n')
 
 
-HOOK_COMMITS = ['b36ebdd']
+HOOK_COMMITS = ['b36ebdd', 'cd5495e']
 
 if __name__ == '__main__':
     main()
